@@ -7,8 +7,10 @@ import (
 	"crypto"
 	"encoding/asn1"
 	"encoding/base64"
+	"encoding/binary"
 	"errors"
 
+	"github.com/sassoftware/relic/v8/lib/cabfile"
 	"github.com/sassoftware/relic/v8/lib/comdoc"
 	"github.com/sassoftware/relic/v8/lib/pkcs7"
 	"github.com/sassoftware/relic/v8/lib/pkcs9"
@@ -197,4 +199,65 @@ func VH_C02_PEVerifyComparesDigest() {
 	} else {
 		vhAssert(!genuine, "genuine-signature-accepted")
 	}
+}
+
+// H02.cab: VerifyCab with integrity checking accepts a signed cabinet only
+// when the embedded blob is an Authenticode structure whose signature
+// verifies AND the cabinet digest recomputed from the file equals the signed
+// one. One changed byte in the folder table or the data (symbolic position and
+// value), a bad CMS signature or a foreign content type: rejected; no
+// signature area: "not signed". The CMS layer is a stub.
+func VH_C02_CabVerifyComparesDigest() {
+	// vh:stubbed
+	const hdr, nf, d, s = 36 + 4 + 20, 1, 4, 8
+	total := hdr + 8*nf + d
+	x := make([]byte, total+s)
+	le := binary.LittleEndian
+	copy(x, "MSCF")
+	le.PutUint32(x[8:], uint32(total))
+	le.PutUint32(x[16:], uint32(hdr+8*nf))
+	x[24], x[25] = 3, 1
+	le.PutUint16(x[26:], nf)
+	le.PutUint16(x[30:], 4) // reserve present
+	le.PutUint16(x[36:], 20)
+	le.PutUint32(x[44:], uint32(total))
+	le.PutUint32(x[48:], s)
+	le.PutUint32(x[hdr:], uint32(hdr+8*nf))
+	copy(x[hdr+8*nf:], "data")
+	copy(x[total:], "cmsblob!")
+	dx, err := cabfile.Digest(bytes.NewReader(x), crypto.SHA256)
+	vhAssert(err == nil, "cabinet-well-formed")
+	if err != nil {
+		return
+	}
+	cms := &vhCms{wrongType: vhBool("foreign-content-type"), sigBad: vhBool("cms-signature-bad"), digest: dx.Imprint}
+	cms.install()
+	y := append([]byte{}, x...)
+	changed := vhBool("protected-byte-changed")
+	if changed {
+		p := hdr + 4 + vhConcretize(vhInt("changed-byte", 0, 4+d-1), 8) // folder entry past its offset word, and the data
+		y[p] = vhU8("new-value")
+		vhAssume(y[p] != x[p])
+	}
+	sig, err := VerifyCab(bytes.NewReader(y), false)
+	vhReach("decided") // vh:require decided
+	genuine := !changed && !cms.wrongType && !cms.sigBad
+	if err == nil {
+		vhReach("accepted") // vh:require accepted
+		vhAssert(genuine && sig != nil, "altered-cabinet-or-bad-signature-never-accepted")
+	} else {
+		vhAssert(!genuine, "genuine-signature-accepted")
+	}
+	// the same cabinet as a build tool without signing support writes it: no reserve area
+	u := make([]byte, 36+8*nf+d)
+	copy(u, "MSCF")
+	le.PutUint32(u[8:], uint32(len(u)))
+	le.PutUint32(u[16:], uint32(36+8*nf))
+	u[24], u[25] = 3, 1
+	le.PutUint16(u[26:], nf)
+	le.PutUint32(u[36:], uint32(36+8*nf))
+	copy(u[36+8*nf:], "data")
+	_, err = VerifyCab(bytes.NewReader(u), false)
+	_, notSigned := err.(sigerrors.NotSignedError)
+	vhAssert(notSigned, "cabinet-without-signature-is-not-signed")
 }
